@@ -155,6 +155,30 @@ class Gen:
     def fields(self, n, params, named, depth=2, attrs=True):
         idents = self.rng.sample(FIELD_IDENTS, n) if named else ["_%d" % i for i in range(n)]
         fs = [self.field(i, params, named, depth, attrs) for i in idents]
+        # the same type used twice in different modes (inline / flatten first, by name later, and the reverse):
+        # the derive's dependency bookkeeping is keyed by the syntactic type
+        if attrs and n >= 1 and self.rng.random() < 0.35:
+            cands = self.named_candidates(lambda d: not d["params"])
+            if cands:
+                d = self.rng.choice(cands)
+                t = ("named", d["ident"], [])
+                modes = self.rng.choice([("inline", "plain"), ("plain", "inline"), ("flatten", "plain"), ("plain", "flatten"),
+                                         ("inline", "plain", "inline")])
+                used = {f["ident"] for f in fs}
+                extra_names = [x for x in (["dup_a", "dup_b", "dup_c"] if named else ["_%d" % (n + k) for k in range(3)]) if x not in used]
+                for mode, nm in zip(modes, extra_names):
+                    f = mk_field(nm, t)
+                    if mode == "inline":
+                        f["inline"] = True
+                    elif mode == "flatten":
+                        if not (named and d.get("flatten_ok")):
+                            continue
+                        f["flatten"] = True
+                    fs.append(f)
+                self.rng.shuffle(fs) if self.rng.random() < 0.3 else None
+                if not named:
+                    for k, f in enumerate(fs):
+                        f["ident"] = "_%d" % k
         return fs
 
     # ---- definitions ---------------------------------------------------------------------
@@ -166,7 +190,7 @@ class Gen:
         if k < 0.85:
             return [("T", None)]
         if k < 0.95:
-            return [("T", None), ("U", r.choice([None, ("leaf", "i32"), ("leaf", "String")] + [("named", d["ident"], []) for d in self.defs[:3] if not d["params"] and not d.get("no_ref")]))]
+            return [("T", None), ("U", r.choice([None, ("leaf", "i32"), ("leaf", "String"), ("param", 0), ("vec", ("param", 0))] + [("named", d["ident"], []) for d in self.defs[:3] if not d["params"] and not d.get("no_ref")]))]
         return [("A", None), ("B", None), ("C", ("leaf", "bool"))]
 
     def struct(self, shape=None, n=None, **kw):
@@ -304,10 +328,21 @@ class Gen:
                          tagging=("internal", "kind"), flatten_ok=True))
         self.add(mk_struct("Tree", "named", [mk_field("value", ("leaf", "i32")), mk_field("children", ("vec", ("named", "Tree", []))),
                                              mk_field("parent", ("option", ("wrap", "Box", ("named", "Tree", []))))], flatten_ok=True))
+        self.add(mk_struct("Batch", "named", [mk_field("first", ("param", 0)), mk_field("rest", ("param", 1))],
+                           params=[("T", None), ("C", ("vec", ("param", 0)))], flatten_ok=False))
         self.add(mk_struct("Wrapper", "tuple", [mk_field("_0", ("param", 0))], params=[("T", None)], flatten_ok=False))
         # witnesses of the known classes (known_findings.json); `no_ref`: never used by generated definitions
         self.add(mk_struct("KfInline", "named", [mk_field("t", ("vec", ("param", 0)), inline=True)], params=[("T", None)],
                            flatten_ok=False, no_ref=True))
+        self.add(mk_enum("TagInline", [mk_variant("A", "tuple", [mk_field("_0", ("named", "Foo", []), inline=True)]),
+                                       mk_variant("B", "tuple", [mk_field("_0", ("named", "Color", []))])],
+                         tagging=("adjacent", "t", "c"), flatten_ok=False, no_ref=True))
+        self.add(mk_enum("TagInline2", [mk_variant("A", "tuple", [mk_field("_0", ("named", "Foo", []), inline=True)])],
+                         tagging=("internal", "t"), flatten_ok=False, no_ref=True))
+        self.add(mk_struct("KfG1", "named", [mk_field("t", ("param", 0)), mk_field("u", ("option", ("param", 1)))],
+                           params=[("T", None), ("U", ("named", "Foo", []))], flatten_ok=False, no_ref=True))
+        self.add(mk_struct("KfG2", "named", [mk_field("h", ("named", "KfG1", [("leaf", "i32"), ("param", 0)]), inline=True)],
+                           params=[("T", None)], flatten_ok=False, no_ref=True))
         self.add(mk_struct("KfOpt", "named", [mk_field("x", ("param", 0))], params=[("T", None)], optional_fields=True,
                            flatten_ok=False, no_ref=True))
 
@@ -510,6 +545,10 @@ fn q<T: TS + 'static + ?Sized>(ix: usize) {
 fn v<T: Serialize>(ix: usize, k: usize, x: T) {
     let s = match catch_unwind(AssertUnwindSafe(|| serde_json::to_string(&x))) { Ok(Ok(s)) => s, Ok(Err(_)) => "\u{0}ERR".to_owned(), Err(_) => "\u{0}PANIC".to_owned() };
     println!("V\u{2}{}\u{2}{}\u{2}{}", ix, k, s.replace('\n', "\u{3}"));
+}
+fn x<T: TS + 'static + ?Sized>(ix: usize, dir: &str) {
+    let r = catch_unwind(AssertUnwindSafe(|| T::export_all_to(format!("{dir}/{ix}"))));
+    println!("X\u{2}{}\u{2}{}", ix, match r { Ok(Ok(())) => "OK".to_owned(), Ok(Err(e)) => format!("ERR {e:?}").replace('\n', " "), Err(_) => "PANIC".to_owned() });
 }
 fn d<T: for<'a> Deserialize<'a> + Serialize>(ix: usize, k: usize, json: &str) {
     let s = match serde_json::from_str::<T>(json) {
